@@ -86,36 +86,36 @@ def annexBLoop : Nat → Bytes → List Bytes → Nat → Option (List Bytes)
       | none =>
         if sz + rest.length > maxAU then none else some (acc ++ [rest])
       | some i =>
-        let naluEnd := if i > 0 && rest.getD (i - 1) 1 == 0 then i - 1 else i
+        let naluEnd := pieceEnd rest i
         if naluEnd > 0 then
           if sz + naluEnd > maxAU then none
           else annexBLoop fuel (rest.drop (i + 3)) (acc ++ [rest.take naluEnd]) (sz + naluEnd)
         else annexBLoop fuel (rest.drop (i + 3)) acc sz
 
+/-- `AnnexB.Unmarshal` after the initial delimiter of `pos` bytes was recognised -/
+def annexBBody (buf : Bytes) (pos : Nat) : Option (List Bytes) :=
+  if buf.length = pos then none
+  else
+    match annexBLoop (buf.length + 1) (buf.drop pos) [] 0 with
+    | none => none
+    | some ns =>
+      if ns.length = 0 then none
+      else if ns.length > maxNALUs then none
+      else some ns
+
 /-- mediacommon `h264.AnnexB.Unmarshal` (`none` = any error) -/
 def annexBUnmarshal (buf : Bytes) : Option (List Bytes) :=
-  let pos? : Option Nat := if startsSC4 buf then some 4 else if startsSC buf then some 3 else none
-  match pos? with
-  | none => none
-  | some pos =>
-    if buf.length = pos then none
-    else
-      match annexBLoop (buf.length + 1) (buf.drop pos) [] 0 with
-      | none => none
-      | some ns =>
-        if ns.length = 0 then none
-        else if ns.length > maxNALUs then none
-        else some ns
+  if startsSC4 buf then annexBBody buf 4
+  else if startsSC buf then annexBBody buf 3
+  else none
 
 /-- `removeAnnexB`: returns the new `annexBMode` and the NALUs (`none` = error) -/
 def removeAnnexB (mode : Bool) (nalus : List Bytes) : Bool × Option (List Bytes) :=
   match nalus with
   | [nalu] =>
-    let mode' := mode || containsSC4 nalu
-    if mode' then
-      let nalu' := if startsSC4 nalu then nalu else [0, 0, 0, 1] ++ nalu
-      (mode', annexBUnmarshal nalu')
-    else (mode', some nalus)
+    if mode || containsSC4 nalu then
+      (true, annexBUnmarshal (if startsSC4 nalu then nalu else [0, 0, 0, 1] ++ nalu))
+    else (false, some nalus)
   | _ => (mode, some nalus)
 
 /-- result of `decodeNALUs` -/
@@ -128,60 +128,72 @@ def isAggType (t : Nat) : Bool :=
   t == CodecH26x.h264TypeSTAPB || t == CodecH26x.h264TypeMTAP16 ||
   t == CodecH26x.h264TypeMTAP24 || t == CodecH26x.h264TypeFUB
 
+/-- FU-A with the start bit: any previous partial NALU is dropped -/
+def fuaStart (d : Dec) (seq : UInt16) (b0 b1 : UInt8) (data : Bytes) : Dec × NRes :=
+  let nri := (b0 >>> 5) &&& 0x03
+  let typ := b1 &&& 0x1F
+  let d1 : Dec := { d with fragmentsSize := data.length + 1,        -- len(pkt.Payload[1:])
+                           fragments := [[(nri <<< 5) ||| typ], data],
+                           fragmentNextSeqNum := seq + 1,
+                           firstPacketReceived := true }
+  if (b1 >>> 6) &&& 0x01 ≠ 0 then
+    (d1.resetFragments, .nalus (splitNALUs (joinFragments d1.fragments d1.fragmentsSize)))
+  else (d1, .more)
+
+/-- FU-A without the start bit -/
+def fuaCont (d : Dec) (seq : UInt16) (b1 : UInt8) (data : Bytes) : Dec × NRes :=
+  if d.fragmentsSize = 0 then
+    if !d.firstPacketReceived then (d, .nonStart) else (d, .err)
+  else if seq ≠ d.fragmentNextSeqNum then (d.resetFragments, .err)
+  else
+    let sz := d.fragmentsSize + data.length
+    if sz > maxAU then (d.resetFragments, .err)
+    else
+      let d1 : Dec := { d with fragmentsSize := sz, fragments := d.fragments ++ [data],
+                               fragmentNextSeqNum := d.fragmentNextSeqNum + 1 }
+      if (b1 >>> 6) &&& 0x01 ≠ 1 then (d1, .more)
+      else (d1.resetFragments, .nalus (splitNALUs (joinFragments d1.fragments d1.fragmentsSize)))
+
+/-- `case h264.NALUTypeFUA`; `tl` is `pkt.Payload[1:]` -/
+def decodeFUA (d : Dec) (seq : UInt16) (b0 : UInt8) (tl : Bytes) : Dec × NRes :=
+  match tl with
+  | [] => (d, .err)
+  | b1 :: data => if b1 >>> 7 = 1 then fuaStart d seq b0 b1 data else fuaCont d seq b1 data
+
+/-- `case h264.NALUTypeSTAPA`; `tl` is `pkt.Payload[1:]` -/
+def decodeSTAPA (d : Dec) (tl : Bytes) : Dec × NRes :=
+  let d1 := d.resetFragments
+  match aggLoop true (tl.length + 1) tl [] with
+  | none => (d1, .err)
+  | some ns =>
+    if ns.length = 0 then (d1, .err)
+    else ({ d1 with firstPacketReceived := true }, .nalus ns)
+
 /-- `decodeNALUs` up to (not including) the final `removeAnnexB` -/
 def decodeNALUs0 (d : Dec) (p : Pkt) : Dec × NRes :=
   match p.payload with
   | [] => (d.resetFragments, .err)
   | b0 :: tl =>
     let typ := (b0 &&& 0x1F).toNat
-    if typ = CodecH26x.h264TypeFUA then
-      match tl with
-      | [] => (d, .err)
-      | b1 :: data =>
-        let start := b1 >>> 7
-        let en := (b1 >>> 6) &&& 0x01
-        if start = 1 then
-          let nri := (b0 >>> 5) &&& 0x03
-          let typ := b1 &&& 0x1F
-          let d1 : Dec := { d with fragmentsSize := tl.length,
-                                   fragments := [[(nri <<< 5) ||| typ], data],
-                                   fragmentNextSeqNum := p.seq + 1,
-                                   firstPacketReceived := true }
-          if en ≠ 0 then
-            (d1.resetFragments, .nalus (splitNALUs (joinFragments d1.fragments d1.fragmentsSize)))
-          else (d1, .more)
-        else if d.fragmentsSize = 0 then
-          if !d.firstPacketReceived then (d, .nonStart) else (d, .err)
-        else if p.seq ≠ d.fragmentNextSeqNum then (d.resetFragments, .err)
-        else
-          let sz := d.fragmentsSize + data.length
-          if sz > maxAU then (d.resetFragments, .err)
-          else
-            let d1 : Dec := { d with fragmentsSize := sz, fragments := d.fragments ++ [data],
-                                     fragmentNextSeqNum := d.fragmentNextSeqNum + 1 }
-            if en ≠ 1 then (d1, .more)
-            else (d1.resetFragments, .nalus (splitNALUs (joinFragments d1.fragments d1.fragmentsSize)))
-    else if typ = CodecH26x.h264TypeSTAPA then
-      let d1 := d.resetFragments
-      match aggLoop true (tl.length + 1) tl [] with
-      | none => (d1, .err)
-      | some ns =>
-        if ns.length = 0 then (d1, .err)
-        else ({ d1 with firstPacketReceived := true }, .nalus ns)
+    if typ = CodecH26x.h264TypeFUA then decodeFUA d p.seq b0 tl
+    else if typ = CodecH26x.h264TypeSTAPA then decodeSTAPA d tl
     else if isAggType typ then
       ({ d.resetFragments with firstPacketReceived := true }, .err)
     else
       ({ d.resetFragments with firstPacketReceived := true }, .nalus [p.payload])
 
+/-- the tail of `decodeNALUs`: the no-NALU check and `removeAnnexB` -/
+def finishNALUs (d1 : Dec) (ns : List Bytes) : Dec × NRes :=
+  if ns.length = 0 then (d1, .err)      -- /repo fix e75535c: an FU-A that holds only start codes
+  else
+    match removeAnnexB d1.annexBMode ns with
+    | (m, some ns') => ({ d1 with annexBMode := m }, .nalus ns')
+    | (m, none) => ({ d1 with annexBMode := m }, .err)
+
 /-- `decodeNALUs` -/
 def decodeNALUs (d : Dec) (p : Pkt) : Dec × NRes :=
   match decodeNALUs0 d p with
-  | (d1, .nalus ns) =>
-    if ns.length = 0 then (d1, .err)      -- /repo fix: an FU-A that holds only start codes
-    else
-      match removeAnnexB d1.annexBMode ns with
-      | (m, some ns') => ({ d1 with annexBMode := m }, .nalus ns')
-      | (m, none) => ({ d1 with annexBMode := m }, .err)
+  | (d1, .nalus ns) => finishNALUs d1 ns
   | r => r
 
 /-- `addToFrameBuffer`; `false` = error -/
@@ -195,25 +207,28 @@ def addToFrameBuffer (d : Dec) (nalus : List Bytes) (ts : UInt32) : Dec × Bool 
                    frameBufferSize := d.frameBufferSize + addSize,
                    frameBufferTimestamp := ts }, true)
 
+/-- `Decode` after `decodeNALUs` succeeded with `ns` -/
+def addNALUs (d1 : Dec) (ns : List Bytes) (ts : UInt32) (marker : Bool) : Dec × DecRes (List Bytes) :=
+  if d1.frameBuffer.length ≠ 0 ∧ ts ≠ d1.frameBufferTimestamp then
+    -- timestamp change: the buffered unit is returned, the marker of the packet is not looked at
+    let ret := d1.frameBuffer
+    match addToFrameBuffer d1.resetFrameBuffer ns ts with
+    | (d2, false) => (d2, .err)
+    | (d2, true) => (d2, .ok ret)
+  else
+    match addToFrameBuffer d1 ns ts with
+    | (d2, false) => (d2, .err)
+    | (d2, true) =>
+      if !marker then (d2, .more)
+      else (d2.resetFrameBuffer, .ok d2.frameBuffer)
+
 /-- `Decoder.Decode` -/
 def decode (d : Dec) (p : Pkt) : Dec × DecRes (List Bytes) :=
   match decodeNALUs d p with
   | (d1, .more) => (d1, .more)
   | (d1, .nonStart) => (d1, .nonStart)
   | (d1, .err) => (d1, .err)
-  | (d1, .nalus ns) =>
-    if d1.frameBuffer.length ≠ 0 ∧ p.ts ≠ d1.frameBufferTimestamp then
-      -- timestamp change: the buffered unit is returned, the marker of `p` is not looked at
-      let ret := d1.frameBuffer
-      match addToFrameBuffer d1.resetFrameBuffer ns p.ts with
-      | (d2, false) => (d2, .err)
-      | (d2, true) => (d2, .ok ret)
-    else
-      match addToFrameBuffer d1 ns p.ts with
-      | (d2, false) => (d2, .err)
-      | (d2, true) =>
-        if !p.marker then (d2, .more)
-        else (d2.resetFrameBuffer, .ok d2.frameBuffer)
+  | (d1, .nalus ns) => addNALUs d1 ns p.ts p.marker
 
 /-- bytes the decoder state keeps referenced between calls (`fragments` + `frameBuffer`) -/
 def retained (d : Dec) : Nat := totalLen d.fragments + totalLen d.frameBuffer
